@@ -117,6 +117,24 @@ CvtIn(p) == LET r2 == R2Of(p)
                 x0(k) == BMod(BMul(IF odd THEN t(k) ELSE BDiv(t(k), <<2>>), ui), M)
             IN { x \in UNION { IF odd THEN { x0(k) } ELSE { x0(k), BAdd(x0(k), M) } : k \in ks } : BLess(x, p) /\ x # <<>> }
 CvtOut(p) == { OutOfMont(p, m) : m \in { mm \in { BMod(BSub(Two256, BMod(BMul(k, p), Two256)), Two256) : k \in QPatterns } : BLess(mm, p) /\ mm # <<>> } }
+\* raw-product families: operands whose RAW 512-bit product (before any reduction) has prescribed HIGH limbs 4..7 - all ones, all
+\* ones minus a little (so that the reduction carries into it), 0, 1, 2^63 - for the dedicated squaring (a = ceil(sqrt(P))) and for the
+\* multiplication (u = ceil(P / v)); P has its low 256 bits clear, so a^2 - P < 2a + 1 and u v - P < v stay below 2^257 and (for the
+\* patterns kept) do not disturb limbs 5..7.  Kept when the operands are below p.
+HDigits == { <<>>, <<1>>, BSub(Two64, <<1>>), BSub(Two64, <<16>>), Pad(<<>>, 7) \o <<128>> }
+HPatterns(p) == { P \in { Pad(<<>>, 32) \o BNorm(Pad(d4, 8) \o Pad(d5, 8) \o Pad(d6, 8) \o Pad(d7, 8)) : d4 \in { <<>>, BSub(Two64, <<16>>) }, d5 \in HDigits, d6 \in HDigits, d7 \in { <<>>, <<1>>, LimbOf(p, 4) } } :
+                  BNorm(P) # <<>> /\ BLess(BNorm(P), BMul(p, p)) }
+ISqrtUp(n) == LET it(x) == BDiv(BAdd(x, BDiv(n, x)), <<2>>)                       \* Newton from above: 2^256 -> floor(sqrt n); then round up
+                  f == it(it(it(it(it(it(it(it(it(it(it(it(Two256))))))))))))
+                  g == IF BLess(n, BMul(f, f)) THEN BSub(f, <<1>>) ELSE f               \* guard against a last overshoot
+              IN IF BMul(g, g) = n THEN g ELSE BAdd(g, <<1>>)
+SqHigh(p) == { a \in { ISqrtUp(BNorm(P)) : P \in HPatterns(p) } : BLess(a, p) /\ a # <<>> }
+MulHigh(p) == LET cand == { << v, LET d == BDiv(BNorm(P), v) IN IF BMul(d, v) = BNorm(P) THEN d ELSE BAdd(d, <<1>>) >> : P \in HPatterns(p), v \in OddSeeds \cup { BSub(p, <<2>>) } }
+              IN { pr \in cand : BLess(pr[2], p) /\ BLess(pr[1], p) /\ pr[2] # <<>> }
+SqHighQ == SqHigh(Q)
+SqHighR == SqHigh(R)
+MulHighQ == MulHigh(Q)
+MulHighR == MulHigh(R)
 CvtQ == CvtIn(Q) \cup CvtOut(Q)              \* zero-arity: evaluated once
 CvtR == CvtIn(R) \cup CvtOut(R)
 CvtInQ == CvtIn(Q)
@@ -125,9 +143,11 @@ Cvt(p) == IF p = Q THEN CvtQ ELSE CvtR
 Enc32(a) == ToBE(a, 32)
 PoolOf(p) == [ eqpairs |-> SetToSeq({ << Enc32(OutOfMont(p, pr[1])), Enc32(OutOfMont(p, pr[2])) >> : pr \in EqPairs(p) }),
                sopq |-> IF p = Q THEN SetToSeq({ << Enc32(OutOfMont(p, c[1])), Enc32(OutOfMont(p, c[2])), Enc32(OutOfMont(p, c[3])), Enc32(OutOfMont(p, c[4])) >> : c \in SopQuads(p) }) ELSE <<>>,
-               qpairs |-> SetToSeq({ << Enc32(OutOfMont(p, pr[1])), Enc32(OutOfMont(p, pr[2])) >> : pr \in QPairs(p) }),
+               qpairs |-> SetToSeq({ << Enc32(OutOfMont(p, pr[1])), Enc32(OutOfMont(p, pr[2])) >> : pr \in QPairs(p) \cup (IF p = Q THEN MulHighQ ELSE MulHighR) }),
+               hpairs |-> SetToSeq({ << Enc32(OutOfMont(p, pr[1])), Enc32(OutOfMont(p, pr[2])) >> : pr \in (IF p = Q THEN MulHighQ ELSE MulHighR) }),
+               sqhigh |-> SetToSeq({ Enc32(OutOfMont(p, m)) : m \in (IF p = Q THEN SqHighQ ELSE SqHighR) }),
                vpairs |-> SetToSeq({ << Enc32(OutOfMont(p, pr[1])), Enc32(OutOfMont(p, pr[2])) >> : pr \in VPairs(p) }),
-               vsq |-> SetToSeq({ Enc32(OutOfMont(p, m)) : m \in (IF p = Q THEN VSquares ELSE {}) \cup SqZeros(p) }),
+               vsq |-> SetToSeq({ Enc32(OutOfMont(p, m)) : m \in (IF p = Q THEN VSquares ELSE {}) \cup SqZeros(p) \cup (IF p = Q THEN SqHighQ ELSE SqHighR) }),
                hi |-> SetToSeq({ Enc32(OutOfMont(p, m)) : m \in HiRes(p) }),
                lo |-> SetToSeq({ Enc32(OutOfMont(p, m)) : m \in LoRes(p) }),
                vals |-> SetToSeq({ Enc32(v) : v \in Vals(p) \cup Cvt(p) }),
@@ -138,6 +158,7 @@ Init == done = FALSE
 Next == ~done /\ done' = TRUE
           /\ JsonSerialize(IOEnv.OUT, [ Fq |-> PoolOf(Q), Fr |-> PoolOf(R) ])
           /\ \A s \in OddSeeds : BMod(BMul(s, InvModR(s)), Two256) = <<1>>
+          /\ (\A a \in SqHighQ : \E P \in HPatterns(Q) : SubSeq(Pad(BMul(a, a), 64), 41, 64) = SubSeq(Pad(BNorm(P), 64), 41, 64))   \* limbs 5..7 as prescribed
           /\ (\A p \in {Q, R} : (BIsOdd(R2Of(p)) \/ BIsOdd(BDiv(R2Of(p), <<2>>))))
           /\ (\A p \in {Q, R} : \A x \in (IF p = Q THEN CvtInQ ELSE CvtInR) :          \* the quotient -x R2 p^-1 mod 2^256 of every generated x is one of the patterns
                  BMod(BMul(BMod(BSub(Two256, BMod(BMul(x, R2Of(p)), Two256)), Two256), InvModR(p)), Two256) \in QPatterns)
